@@ -2,6 +2,6 @@
 # soak.sh <out> <seeds> <pid>... : run quick checks under several seeds on the unchanged tree; any VIOLATION is a false alarm to investigate
 OUT=$1; SEEDS=$2; shift 2
 for pid in "$@"; do for s in $SEEDS; do
-  VERIF_SEED=$s timeout 1500 python3 /verif/tools/check.py $pid > /tmp/soak.$pid.$s.log 2>&1; rc=$?
+  VERIF_SEED=$s timeout 1500 python3 /verif/tools/check.py $pid > /tmp/soak.$pid.$s.log 2>&1; rc=$?; mkdir -p /tmp/soakrep; cp /verif/replays/$pid-* /tmp/soakrep/ 2>/dev/null
   echo "$pid seed=$s rc=$rc $(grep -c VIOLATION /tmp/soak.$pid.$s.log) $(grep '^# ' /tmp/soak.$pid.$s.log | head -2 | cut -c1-150 | tr '\n' '|')" >> $OUT
 done; done
